@@ -94,6 +94,8 @@ struct Scenario {
     shutdown_delay_us: u64,
     policy: u64,
     spacing_us: u64,
+    /// further threads that block in await_shutdown before shutdown begins
+    extra_awaiters: usize,
 }
 
 fn gen_scenario(rng: &mut Rng, miri: bool) -> Scenario {
@@ -105,6 +107,7 @@ fn gen_scenario(rng: &mut Rng, miri: bool) -> Scenario {
         submitters: if miri { rng.range(1, 2) } else { rng.range(1, 4) },
         tasks_per_submitter: if miri { rng.range(1, 3) } else { rng.range(1, 6) },
         task_us: *rng.pick(&[0u64, 0, 50, 300]),
+        extra_awaiters: if miri { rng.below(2) } else { *rng.pick(&[0usize, 0, 1, 2, 3]) },
         pool_shutdown_first: rng.chance(1, 3),
         shutdown_after_submitters: rng.chance(2, 3),
         shutdown_delay_us: rng.below(2000) as u64,
@@ -176,6 +179,12 @@ fn run_history(sc: &Scenario) -> (Arc<Log>, bool) {
         if sc.shutdown_delay_us > 0 {
             std::thread::sleep(Duration::from_micros(sc.shutdown_delay_us));
         }
+        // other parties waiting for the same shutdown (every one of them must be released)
+        let mut awaiters = Vec::new();
+        for _ in 0..sc.extra_awaiters {
+            let g = group.clone();
+            awaiters.push(std::thread::spawn(move || g.await_shutdown()));
+        }
         if sc.pool_shutdown_first {
             log.push(Ev::PoolShutdownCall);
             pool.shut_down();
@@ -189,6 +198,10 @@ fn run_history(sc: &Scenario) -> (Arc<Log>, bool) {
         log.push(Ev::AwaitRet);
         for h in handles {
             let _ = h.join();
+        }
+        // a waiter that is never released shows up as a history that does not finish (deadlock rule)
+        for a in awaiters {
+            let _ = a.join();
         }
         // a submission after shutdown has completed must be rejected
         let tlog = log.clone();
